@@ -19,6 +19,7 @@ import (
 	"math"
 
 	"github.com/panjf2000/gnet/v2/pkg/buffer/linkedlist"
+	"github.com/panjf2000/gnet/v2/pkg/buffer/ring"
 	errorx "github.com/panjf2000/gnet/v2/pkg/errors"
 )
 
@@ -141,7 +142,7 @@ func (mb *Buffer) ReadFrom(r io.Reader) (int64, error) {
 
 // WriteTo implements io.WriterTo.
 func (mb *Buffer) WriteTo(w io.Writer) (n int64, err error) {
-	if n, err = mb.ringBuffer.WriteTo(w); err != nil {
+	if n, err = mb.ringBuffer.WriteTo(w); err != nil && err != ring.ErrIsEmpty {
 		return
 	}
 	var m int64
